@@ -78,11 +78,11 @@ def recv_loops(fnode: ast.FunctionDef):
     returns 0 / b'' (peer closed) must not lead back to another iteration: its own result is tested and the zero case
     leaves the loop."""
     out = []
-    loops = [w for w in walk_local(fnode) if isinstance(w, ast.While)]
+    loops = [w for w in walk_local(fnode) if isinstance(w, ast.While) and any(is_method_call(c, ("recv", "recv_into", "recvfrom")) for c in calls_in(w))]
     if not loops:
         return out
     g = C.build(fnode)
-    gs = flow.guard_states(g)
+    gs = flow.guard_states(g, focus=[c for w in loops for c in calls_in(w) if is_method_call(c, ("recv", "recv_into", "recvfrom"))])
     for w in loops:
         head = next((n for n in g.nodes if n.kind == "test" and n.ast is w.test), None)
         body_ids = {n.id for n in g.nodes if n.ast is not None and n.ast is not w.test and any(a is w for a in ancestors(n.ast))}
@@ -558,8 +558,8 @@ def run(prog: Program, chk: Check):
     # the service loop itself: a module removed earlier in the same round (nested removal while processing another
     # client's frame) must not be read from: liveness of the source is re-established per iteration
     rung = C.build(runf.node)
-    rungs = flow.guard_states(rung)
     reads = [n for n in rung.nodes if any(self_call("read_message")(c) for c in node_calls(n))]
+    rungs = flow.guard_states(rung, focus=[n.ast for n in reads if n.ast is not None])
     if len(reads) != 1:
         raise AnalysisError("anchor vanished: read_message call in run()")
     rc = [c for c in node_calls(reads[0]) if self_call("read_message")(c)][0]
